@@ -71,8 +71,9 @@ def gen_case(rng):
 def factory_cases(rep):
     """potable route: every way of fixing the row count ends in a TABLE with ngrid % 4 == 0 or in a configuration error with no file"""
     import tempfile, os
-    for nm, tab in (('nr-omitted', 'cutoff : 6.0'), ('nr-1001', 'cutoff : 6.0\nnr : 1001'), ('nr-1000', 'cutoff : 6.0\nnr : 1000'), ('dr-and-cutoff', 'cutoff : 6.0\ndr : 0.01'),
-                    ('dr-and-cutoff-multiple-of-4', 'cutoff : 6.0\ndr : 0.006006006006006006')):
+    for nm, tab, want_cut in (('nr-omitted', 'cutoff : 6.0', 6.0), ('nr-1001', 'cutoff : 6.0\nnr : 1001', 6.0), ('nr-1000', 'cutoff : 6.0\nnr : 1000', 6.0), ('dr-and-cutoff', 'cutoff : 6.0\ndr : 0.01', 6.0),
+                    ('dr-and-cutoff-multiple-of-4', 'cutoff : 6.0\ndr : 0.006006006006006006', 6.0), ('nr-and-dr', 'nr : 16\ndr : 0.25', 3.75), ('nr-and-dr-fine', 'nr : 2000\ndr : 0.005', 9.995),
+                    ('dr-and-cutoff-coarse', 'cutoff : 5.75\ndr : 0.25', 5.75)):
         for target in ('DL_POLY', 'DLPOLY'):
             case = dict(kind='potable-row-count', name=nm, target=target)
             rep.case('potable/' + nm, case)
@@ -86,7 +87,19 @@ def factory_cases(rep):
                     try: n = int(text.split('\n')[1][30:40])
                     except Exception: n = None
                     if n is None or n % 4 != 0: rep.dev('potable-' + nm, case, 'TABLE with ngrid %r' % n, 'ngrid divisible by four')
-                    else: rep.ok()
+                    else:
+                        # the header and the records of the potable route: delpot = cutpot/(ngrid-4) whichever keys fixed the grid, energies on the k*delpot grid
+                        import math
+                        hl = text.split('\n')[1]; delpot, cutpot = float(hl[0:15]), float(hl[15:30])
+                        vals = ' '.join(text.split('\n')[3:3 + 3]).split()
+                        want = [1000.0 * math.exp(-(k * cutpot / (n - 4)) / 0.3) - 32.0 / (k * cutpot / (n - 4)) ** 6 for k in range(1, 9)]
+                        if abs(delpot - cutpot / (n - 4)) > 1e-7 * delpot:
+                            rep.dev('potable-' + nm, case, 'header delpot %r cutpot %r ngrid %r' % (delpot, cutpot, n), 'delpot = cutpot/(ngrid-4) = %r' % (cutpot / (n - 4)))
+                        elif want_cut is not None and abs(cutpot - want_cut) > 1e-7 * want_cut:
+                            rep.dev('potable-' + nm, case, 'header cutpot %r' % cutpot, 'cutpot = %r' % want_cut)
+                        elif any(abs(float(g) - w) > 2e-7 * max(1.0, abs(w)) for g, w in zip(vals[0:8], want)):
+                            rep.dev('potable-' + nm, case, 'energies 1..8: %r' % (vals[0:8],), 'V(k*cutpot/(ngrid-4)): %r' % (want,))
+                        else: rep.ok()
                 elif 'configuration error' in se and not text: rep.ok()
                 else: rep.dev('potable-' + nm, case, 'exit %r, stderr %r, output file %s' % (code, se[-150:], 'absent' if text is None else '%d bytes' % len(text)),
                               'a TABLE with ngrid % 4 == 0, or a configuration error and no output file')
